@@ -8,6 +8,18 @@
 
 using namespace grv;
 
+namespace {
+// advance callback of a "hinted" font: a value that depends on the glyph id only
+float hinted_advance(const void *, gr_uint16 gid) { return 3.0f + float(gid % 53) * 0.4375f; }
+const gr_font_ops hinted_ops = { sizeof(gr_font_ops), hinted_advance, 0 };
+gr_font *make_font(double ppm, const gr_face *face, int hinted) {
+    if (!(ppm > 0)) return 0;
+    if (hinted == 1) return gr_make_font_with_ops(float(ppm), &hinted_ops, &hinted_ops, face);
+    if (hinted == 2) return gr_make_font_with_advance_fn(float(ppm), &hinted_ops, hinted_advance, face);
+    return gr_make_font(float(ppm), face);
+}
+}
+
 static uint64_t fnv(const std::string &s) { uint64_t h = 1469598103934665603ULL; for (unsigned char c : s) { h ^= c; h *= 1099511628211ULL; } return h; }
 
 // grv shape <jobs.ndjson> [full]
@@ -34,7 +46,8 @@ GRV_CMD(shape) {
             ++g_cases; continue;
         }
         if (!face) { vj::W w; w.str("font", font).str("id", id); report_fail(j->has("prop") ? (*j)["prop"].s.c_str() : "*", "font failed to load", w.done()); continue; }
-        gr_font *gf = ppm > 0 ? gr_make_font(float(ppm), face) : 0;
+        const int hinted = int(j->get("hinted", 0));      // 1: gr_make_font_with_ops, 2: gr_make_font_with_advance_fn
+        gr_font *gf = make_font(ppm, face, hinted);
         std::vector<std::vector<uint32_t>> texts;
         if (j->has("cps") && (*j)["cps"].kind == vj::Value::Arr) {
             std::vector<uint32_t> t; for (auto &x : (*j)["cps"].a) t.push_back(uint32_t(x->num())); texts.push_back(t);
@@ -60,7 +73,7 @@ GRV_CMD(shape) {
         if (j->get("reverse", 0)) std::reverse(texts.begin(), texts.end());
         long k = 0;
         for (auto &t : texts) {
-            if (fresh) { if (gf) gr_font_destroy(gf); gr_face_destroy(face); face = viaops ? tfc.make(opts) : gr_make_file_face(font.c_str(), opts); gf = ppm > 0 ? gr_make_font(float(ppm), face) : 0; }
+            if (fresh) { if (gf) gr_font_destroy(gf); gr_face_destroy(face); face = viaops ? tfc.make(opts) : gr_make_file_face(font.c_str(), opts); gf = make_font(ppm, face, hinted); }
             set_case("shape %s seg=%ld opts=%d dir=%d ppm=%g", id.c_str(), k, opts, dir, ppm);
             GRV_WATCHDOG;
             gr_segment *seg = gr_make_seg(gf, face, 0, 0, gr_utf32, t.data(), t.size(), dir);
